@@ -45,6 +45,39 @@ package tbls
 //@ ensures r1 == nil ==> ncalls(id.SetDecString) == len(partialSignaturesByIndex) && ncalls(signature.Deserialize) == len(partialSignaturesByIndex) && ncalls(complete.Recover) == 1 && ncalls(id.SetHexString) == 0
 //@ loop 1 invariant len(rawSigns) == $i && len(rawIDs) == $i && ncalls(id.SetDecString) == $i && ncalls(signature.Deserialize) == $i && ncalls(complete.Recover) == 0 && ncalls(id.SetHexString) == 0
 
+// Sign / Verify / Aggregate / VerifyAggregate: the library signs (verifies) exactly the bytes the caller passed in this
+// call, with the key (signature) deserialised from this call's arguments, once; nothing is carried over between calls.
+//@ func (Herumi) Sign
+//@ props C08
+//@ callreq p.Deserialize: ncalls(p.SignByte) == 0 && a1 == privateKey[:]
+//@ callreq p.SignByte: a1 == data && ncalls(p.Deserialize) == 1
+//@ ensures r1 == nil ==> ncalls(p.SignByte) == 1 && ncalls(p.Deserialize) == 1
+
+//@ func (Herumi) Verify
+//@ props C08 C09
+//@ callreq signature.VerifyByte: a2 == data && ncalls(pubKey.Deserialize) == 1 && ncalls(signature.Deserialize) == 1
+//@ callreq pubKey.Deserialize: a1 == compressedPublicKey[:]
+//@ callreq signature.Deserialize: a1 == rawSignature[:]
+//@ ensures result == nil ==> ncalls(signature.VerifyByte) == 1
+
+//@ func (Herumi) VerifyAggregate
+//@ props C08
+//@ callreq sig.FastAggregateVerify: a1 == rawShares && len(rawShares) == len(publicShares) && a2 == data && ncalls(sig.Deserialize) == 1 && ncalls(pubKey.Deserialize) == len(publicShares)
+//@ ensures result == nil ==> ncalls(sig.FastAggregateVerify) == 1
+//@ loop 1 invariant len(rawShares) == $i && ncalls(pubKey.Deserialize) == $i && ncalls(sig.Deserialize) == 1 && ncalls(sig.FastAggregateVerify) == 0
+
+//@ func (Herumi) Aggregate
+//@ props C08
+//@ callreq sig.Aggregate: a1 == rawSigns && len(rawSigns) == len(signs) && ncalls(signature.Deserialize) == len(signs)
+//@ ensures r1 == nil ==> ncalls(sig.Aggregate) == 1
+//@ loop 1 invariant len(rawSigns) == $i && ncalls(signature.Deserialize) == $i && ncalls(sig.Aggregate) == 0
+
+//@ func (Herumi) SecretToPublicKey
+//@ props C08
+//@ callreq p.GetSafePublicKey: ncalls(p.Deserialize) == 1
+//@ callreq p.Deserialize: a1 == secret[:]
+//@ ensures r1 == nil ==> ncalls(p.GetSafePublicKey) == 1
+
 // ---- package-level entry points: thin delegations to the selected implementation --------------------
 // Each wrapper returns exactly what the implementation returns for exactly the arguments it was given
 // (no caching, no argument rewriting). The implementation methods are named as functions of their arguments
